@@ -41,6 +41,8 @@ type Options struct {
 	NoContract map[string]bool // callees to inline even though they have a contract
 	NoPanic    bool            // generate no-panic obligations
 	Bounded    string
+	Reveal     bool // opaque spec functions are expanded (used when proving the contracts that define them)
+	InlineAll  bool // falsifier mode: ignore contracts of callees with bodies, inline them instead
 }
 
 type Exec struct {
@@ -495,6 +497,11 @@ func (x *Exec) mergeEdges(b *ssa.BasicBlock, edges []vedge) *State {
 		v   Value
 	}
 	var phis []phiVal
+	econds := make([]*Term, len(edges))
+	for i, e := range edges {
+		econds[i] = e.cond
+	}
+	disc := c.Relativize(econds)
 	for _, ins := range b.Instrs {
 		phi, ok := ins.(*ssa.Phi)
 		if !ok {
@@ -519,7 +526,7 @@ func (x *Exec) mergeEdges(b *ssa.BasicBlock, edges []vedge) *State {
 			if first {
 				val, first = ev, false
 			} else {
-				val = x.MergeValues(e.cond, ev, val)
+				val = x.MergeValues(disc[i], ev, val)
 			}
 		}
 		phis = append(phis, phiVal{phi, val})
@@ -555,7 +562,7 @@ func (x *Exec) mergeEdges(b *ssa.BasicBlock, edges []vedge) *State {
 			if val == nil {
 				val = hv
 			} else {
-				val = c.Ite(e.cond, hv, val)
+				val = c.Ite(disc[i], hv, val)
 			}
 		}
 		st.Heap.comps[k] = val
@@ -566,7 +573,7 @@ func (x *Exec) mergeEdges(b *ssa.BasicBlock, edges []vedge) *State {
 		if st.Alloc == nil {
 			st.Alloc = e.from.Alloc
 		} else {
-			st.Alloc = c.Ite(e.cond, e.from.Alloc, st.Alloc)
+			st.Alloc = c.Ite(disc[i], e.from.Alloc, st.Alloc)
 		}
 	}
 	// env: keys present in all edges
@@ -592,7 +599,7 @@ func (x *Exec) mergeEdges(b *ssa.BasicBlock, edges []vedge) *State {
 							panic(r)
 						}
 					}()
-					val = x.MergeValues(edges[i].cond, ev, val)
+					val = x.MergeValues(disc[i], ev, val)
 				}()
 				if !ok {
 					break
@@ -640,6 +647,7 @@ func (x *Exec) mergeReturns(fn *ssa.Function, rets []retPoint) (Value, *State) {
 		conds[i] = r.st.PC
 	}
 	st := &State{PC: c.Or(conds...), Heap: &Heap{comps: map[string]*Term{}}, Env: map[ssa.Value]Value{}}
+	disc := c.Relativize(conds)
 	names := map[string]bool{}
 	for _, r := range rets {
 		for k := range r.st.Heap.comps {
@@ -656,7 +664,7 @@ func (x *Exec) mergeReturns(fn *ssa.Function, rets []retPoint) (Value, *State) {
 			if val == nil {
 				val = hv
 			} else {
-				val = c.Ite(rets[i].st.PC, hv, val)
+				val = c.Ite(disc[i], hv, val)
 			}
 		}
 		st.Heap.comps[k] = val
@@ -667,9 +675,9 @@ func (x *Exec) mergeReturns(fn *ssa.Function, rets []retPoint) (Value, *State) {
 			st.Alloc = rets[i].st.Alloc
 			val = rets[i].val
 		} else {
-			st.Alloc = c.Ite(rets[i].st.PC, rets[i].st.Alloc, st.Alloc)
+			st.Alloc = c.Ite(disc[i], rets[i].st.Alloc, st.Alloc)
 			if len(val.L) > 0 || len(val.Tuple) > 0 {
-				val = x.MergeValues(rets[i].st.PC, rets[i].val, val)
+				val = x.MergeValues(disc[i], rets[i].val, val)
 			}
 		}
 	}
@@ -906,6 +914,9 @@ func (x *Exec) toIdx(v Value) *Term {
 }
 
 func (x *Exec) boundsObl(st *State, sub string, ok *Term, pos token.Pos, text string) {
+	if x.specMode > 0 {
+		return // spec functions are total: array reads out of range yield arbitrary bytes
+	}
 	if x.Opt.NoPanic {
 		x.addObl(st, "nopanic", sub, ok, pos, text)
 	}
